@@ -104,7 +104,8 @@ def electronic_energy(dm_row, F_row, h_row):
     return 0.5 * float(np.sum(dm_row * (h_row + F_row)))
 
 
-def identities(method, mol, obs, row, F=None, h=None, uhf=False, active=0, sp2_tol=None, nbf=4, has_dipole=True, exc_tol=1e-9):
+def identities(method, mol, obs, row, F=None, h=None, uhf=False, active=0, sp2_tol=None, nbf=4, has_dipole=True, exc_tol=1e-9,
+               tracked=False):
     """Evaluate every identity for molecule `row` of a call.  mol: molecule dict (species, coords, charge, mult);
     obs: dict of numpy observations of the whole batch (padded).  Returns a list of (identity, error, tolerance)."""
     sp_row = list(mol["species"])
@@ -136,6 +137,11 @@ def identities(method, mol, obs, row, F=None, h=None, uhf=False, active=0, sp2_t
         gap = np.asarray(obs["e_gap"][row]).reshape(-1)
     for s, (es, nocc, tag) in enumerate(chans):
         out.append((f"e_mo ascending{tag}", float(max(0.0, -(np.diff(es)).min())) if norb > 1 else 0.0, 1e-10))
+        if tracked:
+            # an object evaluated before: the ascending clause is reported as it is found; the other orbital identities
+            # are evaluated on the ascending arrangement of the reported energies, so that they stay independent of it
+            es = np.sort(es)
+            chans[s] = (es, nocc, tag)
         if 0 < nocc < norb:
             out.append((f"gap=e[nocc]-e[nocc-1]{tag}", abs(float(gap[s]) - float(es[nocc] - es[nocc - 1])), 1e-9))
     if F is not None:
